@@ -225,7 +225,7 @@ def run(unit, seed=0, rlimit=None, extra=None, only_fn=None, multiple_errors=8):
                                     ob = f"{unit}/{ff['qname']}::{labels[ll].split('::')[-1]}"
                         else:
                             ob = f"{unit}/{labels[ll]}"
-        if ob is None and ("closure" in low or "assertion failed" in low):
+        if ob is None and ("closure" in low or "assertion failed" in low or "invariant" in low):
             # a closure inside an impl does not deliver its stated per-element result: charge the fn's first clause
             for s in d["spans"]:
                 ff = enclosing_fn(meta, s["line_start"])
